@@ -44,7 +44,7 @@ class Contract:
                  uses=(), exits=(), result_name="result", notes="", prop_clauses=None, yields=None,
                  free=None, assumes=(), skip_body=False, replay=None, self_fields=None, abstract_ok=(),
                  entry_ghost=(), exit_ghost=(), consts=None, witness=None, defaults=None,
-                 tags=None):
+                 tags=None, global_ghosts=(), result_fn=None, options=None):
         self.target = target              # "mokapot.utils.create_chunks" or "mokapot.model.Model.fit"
         self.params = dict(params or {})  # name -> type string (in signature order)
         self.requires = list(requires)
@@ -73,6 +73,10 @@ class Contract:
         self.exit_ghost = list(exit_ghost)
         self.consts = dict(consts or {})  # module-level constants visible in the body: name -> (type, value|None)
         self.prop_clauses = prop_clauses
+        self.result_fn = result_fn   # name of a global ghost F: callers may assume result == F(immutable args)
+                                      # (sound for a deterministic function; F is otherwise unconstrained)
+        self.options = dict(options or {})   # engine options (e.g. join_congruence: ground congruence facts for str.join)
+        self.global_ghosts = list(global_ghosts)  # spec functions shared between caller and callee (same UF by name)
         self.witness = dict(witness or {})   # ensures text -> {bound var: witness expression} (proof hint)
         self.defaults = dict(defaults or {})  # param -> default expression text
         self.tags = dict(tags or {})          # name -> class names for which isinstance(name, cls) holds
